@@ -216,84 +216,72 @@ def run(ctx: Ctx):
 
     def _mentions_remainder(t, inl):
         return "%" in inl.text(t)
-    # drop: effective_total = total - total % world, under a test of the remainder
-    node_d, pm_d, inl_d = _mode_view("drop")
-    drop_ok = False
-    for st in ast.walk(node_d):
-        if isinstance(st, ast.Assign) and "self.effective_total" in _targets(st) and any(_mentions_remainder(t, inl_d) for t, _ in guards_of(pm_d, st)):
-            # compared with total - total % world at a grid of (total, world) - `total // world * world` is the same number
-            from sa.inteval import NotEvaluable, int_eval
-            try:
-                drop_ok = all(int_eval(inl_d.expand(st.value), {"self.total": t_, "self._world_size": w_}) == t_ - t_ % w_
-                              for t_ in range(0, 14) for w_ in range(1, 6))
-            except NotEvaluable:
-                drop_ok = False
-    col.ob("G12", "S3", f"{where}::drop-branch", drop_ok,
-           "under 'drop' effective_total is not total - total % world_size (ranks would get unequal counts)",
-           rel, init.line)
-    # raise: a raise reached exactly when the remainder is non-zero
-    node_r, pm_r, inl_r = _mode_view("raise")
-    def _remainder_nonzero(t, pol, inl):
-        """Does guard (t, pol) say 'the remainder is not zero'? `r`, `r != 0`, `r > 0`, `not r == 0`, and their negations as
-        the complement of a guard clause (`if not r: return`)."""
-        while isinstance(t, ast.UnaryOp) and isinstance(t.op, ast.Not):
-            t, pol = t.operand, not pol
-        x = inl.expand(t)
-        if isinstance(x, ast.Compare) and len(x.ops) == 1 and isinstance(x.comparators[0], ast.Constant) and x.comparators[0].value == 0:
-            if isinstance(x.ops[0], ast.Eq):
-                pol = not pol
-            elif not isinstance(x.ops[0], (ast.NotEq, ast.Gt)):
-                return False
-            x = x.left
-        return pol and "%" in u(x)
-    raise_ok = any(isinstance(st, ast.Raise) and any(_remainder_nonzero(t, pol, inl_r) for t, pol in guards_of(pm_r, st))
-                   for st in ast.walk(node_r))
-    col.ob("G8", "S4", f"{where}::raise-branch", raise_ok,
-           "under 'raise' an indivisible size does not raise", rel, init.line)
-    # uneven: nothing is dropped and nothing raises on the remainder
-    node_u, pm_u, inl_u = _mode_view("uneven")
-    uneven_ok = not any(isinstance(st, ast.Assign) and "self.effective_total" in _targets(st) and guards_of(pm_u, st) for st in ast.walk(node_u)) \
-        and not any(isinstance(st, ast.Raise) and any(_mentions_remainder(t, inl_u) for t, _ in guards_of(pm_u, st)) for st in ast.walk(node_u))
-    col.ob("G8", "S4", f"{where}::uneven-keeps-every-index", uneven_ok,
-           "under 'uneven' the size is reduced or refused: every index must be yielded by exactly one rank", rel, init.line)
-    # rank / world size from the process group in the distributed modes
-    rank_ok = world_ok = False
-    for st in ast.walk(node_d):
-        if isinstance(st, ast.Assign) and isinstance(st.value, ast.Call):
-            if "self._rank" in _targets(st):
-                rank_ok = call_name(st.value) == "torch.distributed.get_rank"
-            if "self._world_size" in _targets(st):
-                world_ok = call_name(st.value) == "torch.distributed.get_world_size"
-    col.ob("G12", "S3", f"{where}::rank-and-world", rank_ok and world_ok,
-           "self._rank / self._world_size are not taken from torch.distributed.get_rank/get_world_size", rel,
-           init.line)
-    # 'ignore' gives every rank the whole epoch: specialised on 'ignore', rank and world size are only ever the constants
-    # (0, 1) and the process group is never consulted for them
-    node_i, pm_i, inl_i = _mode_view("ignore")
-    fb = {}
-    ndist = 0
-    for st in ast.walk(node_i):
-        if isinstance(st, ast.Assign) and set(_targets(st)) & {"self._rank", "self._world_size"}:
-            vals = st.value.elts if isinstance(st.value, ast.Tuple) else [st.value] * len(_targets(st))
-            for tname, v in zip(_targets(st), vals):
-                if tname in ("self._rank", "self._world_size"):
-                    if isinstance(v, ast.Constant):
-                        fb[tname] = v.value
-                    else:
-                        ndist += 1
-                        col.ob("G8", "S4", f"{where}::ignore-excludes-process-group({tname})", False,
-                               f"`{u(st)}` takes the rank/world size from the process group on a branch that is not "
-                               f"excluded for on_uneven_distributed == 'ignore': under 'ignore' a rank would get a shard "
-                               f"instead of the full epoch", rel, st.lineno, sample=u(st))
-    # (positive control: in the distributed modes those assignments are present)
-    npg = sum(1 for st in ast.walk(node_d) if isinstance(st, ast.Assign) and set(_targets(st)) & {"self._rank", "self._world_size"}
-              and not isinstance(st.value, ast.Constant))
-    col.floor("process_group_assignments", npg, 2)
-    col.ob("G8", "S4", f"{where}::ignore-excludes-process-group", ndist == 0,
-           "under 'ignore' the process group determines rank / world size", rel, init.line, nontrivial=False)
-    col.ob("G8", "S4", f"{where}::ignore-fallback", fb == {"self._rank": 0, "self._world_size": 1},
-           f"the non-distributed / 'ignore' fallback sets {fb}, expected rank 0 of world 1", rel, init.line,
-           sample=fb)
+    # The partition table (props/c13_table.py): __init__ / get_samples_for_epoch / __len__ interpreted for every mode x process-group
+    # state x size, compared with the documented table. Spelling of the in-a-group test, named remainders, helpers: irrelevant.
+    from sa.inteval import NotEvaluable
+    from .c13_table import SIZES, WORLD, SamplerTable
+    modtree = pkg.module(MOD).tree
+    src_param = [p_.name for p_ in init.params if p_.name != "self"][0]
+    tab = SamplerTable(modtree, base.node, init.node, g.node, ln.node, "on_uneven_distributed", src_param)
+    try:
+        rows = tab.rows()
+    except NotEvaluable as e:
+        rows = None
+        col.undecided(f"{where}: the sampler constructor / rank share is outside the interpreted fragment ({e})")
+    if rows is not None:
+        col.floor("sampler_table_rows", len(rows), 100)
+
+        def _bad(pred, cmp_):
+            return [r_ for r_ in rows if pred(r_) and not cmp_(r_)]
+
+        def _same(r_, *keys):
+            return r_["got"].get("raised") == r_["want"]["raised"] and all(r_["got"].get(k) == r_["want"].get(k) for k in keys if not r_["want"]["raised"])
+
+        def _fmt(r_):
+            return (f"mode={r_['mode']!r}, torch.distributed available={r_['available']} initialised={r_['initialised']} group rank={r_['group_rank']} "
+                    f"of {WORLD}, {r_['n']} items: got {r_['got']}, documented {r_['want']}")
+        in_group = lambda r_: r_["mode"] != "ignore" and r_["available"] and r_["initialised"] and r_["group_rank"] >= 0  # noqa: E731
+        specs = [
+            ("G12", "S3", "drop-branch", lambda r_: r_["mode"] == "drop" and in_group(r_), lambda r_: _same(r_, "effective", "total"),
+             "under 'drop' effective_total is not total - total % world_size (ranks would get unequal counts)"),
+            ("G8", "S4", "raise-branch", lambda r_: r_["mode"] == "raise" and in_group(r_), lambda r_: _same(r_, "effective", "total"),
+             "under 'raise' an indivisible size does not raise (or a divisible one does)"),
+            ("G8", "S4", "uneven-keeps-every-index", lambda r_: r_["mode"] == "uneven" and in_group(r_), lambda r_: _same(r_, "effective", "total"),
+             "under 'uneven' the size is reduced or refused: every index must be yielded by exactly one rank"),
+            ("G12", "S3", "rank-and-world", lambda r_: in_group(r_), lambda r_: r_["want"]["raised"] or r_["got"].get("raised") or _same(r_, "rank", "world"),
+             "in a process group self._rank / self._world_size are not the group's rank / world size"),
+            ("G8", "S4", "ignore-excludes-process-group", lambda r_: r_["mode"] == "ignore", lambda r_: _same(r_, "rank", "world", "effective", "total"),
+             "under 'ignore' the process group determines rank / world size / size: a rank would get a shard instead of the full epoch"),
+            ("G8", "S4", "ignore-fallback", lambda r_: r_["mode"] != "ignore" and not in_group(r_), lambda r_: _same(r_, "rank", "world", "effective", "total"),
+             "outside a process group (unavailable, uninitialised, rank < 0) the sampler is not rank 0 of world 1 over the whole data set"),
+        ]
+        for rule, clause, name, pred, cmp_, why in specs:
+            sel = [r_ for r_ in rows if pred(r_)]
+            col.floor(f"sampler_table_rows[{name}]", len(sel), 6)
+            bad = _bad(pred, cmp_)
+            col.ob(rule, clause, f"{where}::{name}", not bad, why + (": " + _fmt(bad[0]) if bad else ""), rel, init.line,
+                   sample=dict(rows=len(sel), mismatching=len(bad)))
+        # the shares: for every state the reported length is the number of indices the rank yields; over the ranks of a group the
+        # shares are disjoint and cover exactly 0 .. effective-1
+        badlen = [r_ for r_ in rows if r_["slice"] is not None and r_["len"] != len(r_["slice"])]
+        col.ob("G12", "S3", f"{rel}::{ln.qualname}::length-is-the-number-of-indices-yielded", not badlen,
+               (f"len() reports {badlen[0]['len']} but the rank yields {len(badlen[0]['slice'])} indices ({_fmt(badlen[0])}): a loader built on "
+                f"the sampler announces a number of batches it does not deliver, and replicas disagree") if badlen else "", rel, ln.line,
+               sample=dict(rows=sum(1 for r_ in rows if r_["slice"] is not None), mismatching=len(badlen)))
+        cover_bad = []
+        for mode in ("raise", "drop", "uneven"):
+            for n_ in SIZES:
+                grp = [r_ for r_ in rows if r_["mode"] == mode and r_["n"] == n_ and in_group(r_) and r_["slice"] is not None]
+                if len(grp) != WORLD:
+                    continue
+                allidx = [i for r_ in grp for i in r_["slice"]]
+                eff = grp[0]["want"]["effective"]
+                if sorted(allidx) != list(range(eff)) or len({len(r_["slice"]) for r_ in grp}) > (2 if mode == "uneven" else 1):
+                    cover_bad.append((mode, n_, [r_["slice"] for r_ in grp], eff))
+        col.ob("G12", "S3", f"{rel}::{g.qualname}::rank-shares-partition-the-epoch", not cover_bad,
+               (f"mode={cover_bad[0][0]!r}, {cover_bad[0][1]} items over {WORLD} ranks: the ranks yield {cover_bad[0][2]}, which is not a partition "
+                f"of 0..{cover_bad[0][3] - 1} into shares of equal size (sizes differing by at most one under 'uneven')") if cover_bad else "", rel, g.line,
+               sample=dict(groups=len(SIZES) * 3, bad=len(cover_bad)))
     _seed_domain(ctx)
     plumbing(ctx, "S4")
     return dict(
